@@ -23,6 +23,7 @@ META = {
     'technique': 'static analysis: abstract interpretation of the printers (type scenarios), of general_identifier and of the wr'
                  'apper; effect inventory',
 }
+META['text'] += ' Round 5: (b) in containers longer than every size constant of the sequence printer, elements that are instances of an int subclass are handed to the recursive print entry, never written as a literal.'
 
 STRATEGIES = ['MULTILINE_STRATEGY_PLAIN', 'MULTILINE_STRATEGY_HANG', 'MULTILINE_STRATEGY_INDENTED', 'MULTILINE_STRATEGY_PARENS']
 
